@@ -49,7 +49,10 @@ CLAIM = dict(
     "Tie: exact differential correspondence of the OPERATIONAL models on dyadic inputs for float64, float32, uint8, uint16 and int64 "
     "signals (values and element type of the result), error classes, update sequences; G1 tables (dof dispatch, exponents d <= 8, "
     "cv2 rounding points n,N <= 64, index maps <= 16); LinearKernel numba / plain loop exactly on dyadic float32.",
-    note="OBSERVED ONLY: exp (GaussianKernel), np.linalg.inv, float32 rounding and fastmath on non-dyadic data (reproduction 1e-4, numba vs "
+    note="oracle = stated clauses only: span by rank for degrees 0..4 (monomial order is a tie), per-label agreement exactly at the label map's shape "
+    "(foreign shapes: some label's model per pixel; OpenCV regions are a tie), kernel reproduction through obj(x) along update sequences (fresh-object "
+    "equality observed), failing inputs only for float64/float32/uint8/uint16 signals (other element types observed), update_model_parameters only "
+    "(keyword update() observed). OBSERVED ONLY: exp (GaussianKernel), np.linalg.inv, float32 rounding and fastmath on non-dyadic data (reproduction 1e-4, numba vs "
     "plain sum 1e-5, on fresh objects and along update sequences incl. AdvancedKernelInterpolation); the kernel state machine's weights "
     "are compared with inv(K(key)) @ values for the key the model predicts (1e-6 cond). Not modelled: 3-D label volumes; Image inputs "
     "other than for ClipModel (behaviour recorded in the evidence); states after a raising update (recorded as observations); cv2 index rule beyond n,N = 64 (theorems "
